@@ -19,7 +19,11 @@ type SchedSpec struct {
 	P       int    // focus party for starve / prestart
 	Choices []int  `json:",omitempty"`
 	DupPct  int    `json:",omitempty"`
-	Parsed  int    // percent of deliveries made through Update(parsed) instead of UpdateFromBytes
+	// holdmsg: the copy of message type HoldType from party HoldFrom to party HoldTo is held back until nothing else is deliverable
+	HoldType string `json:",omitempty"`
+	HoldFrom int    `json:",omitempty"`
+	HoldTo   int    `json:",omitempty"`
+	Parsed   int    // percent of deliveries made through Update(parsed) instead of UpdateFromBytes
 }
 
 func genSched(t *rapid.T, nNodes int, kinds []string) SchedSpec {
@@ -56,6 +60,10 @@ func (s SchedSpec) Make() sim.Scheduler {
 		return &sim.DupAll{}
 	case "hold":
 		return &sim.HoldSome{IDs: s.Hold}
+	case "holdmsg":
+		return &sim.HoldSome{Match: func(d *sim.Delivery) bool {
+			return d.E.Type == s.HoldType && d.E.From == s.HoldFrom && d.To == s.HoldTo
+		}}
 	case "choices", "choices-dup":
 		return &sim.Choices{List: s.Choices, DupPct: s.DupPct}
 	}
@@ -64,6 +72,9 @@ func (s SchedSpec) Make() sim.Scheduler {
 
 func (s SchedSpec) Class() string {
 	c := s.Kind
+	if s.Kind == "holdmsg" {
+		c += fmt.Sprintf("(%s %d->%d)", shortType(s.HoldType), s.HoldFrom, s.HoldTo)
+	}
 	if s.Parsed == 100 {
 		c += "+parsed"
 	} else if s.Parsed > 0 {
